@@ -148,15 +148,15 @@ func GetMACPayloadAndSize(uplink bool, c CID) (MACCommandPayload, int, error) {
 }
 
 // RegisterProprietaryMACCommand registers a proprietary MAC command. Note
-// that there is no need to call this when the size of the payload is > 0 bytes.
+// that there is no need to call this when the size of the payload is 0 bytes
+// (registering a size of 0 removes an earlier registration).
 func RegisterProprietaryMACCommand(uplink bool, cid CID, payloadSize int) error {
 	if !(cid >= 128 && cid <= 255) {
 		return fmt.Errorf("lorawan: invalid CID %x", byte(cid))
 	}
 
-	if payloadSize == 0 {
-		// no need to register the payload size
-		return nil
+	if payloadSize < 0 {
+		return fmt.Errorf("lorawan: invalid payload size %d", payloadSize)
 	}
 
 	macPayloadMutex.Lock()
@@ -164,9 +164,14 @@ func RegisterProprietaryMACCommand(uplink bool, cid CID, payloadSize int) error 
 	defer verifHook("wunlock", uplink, cid, payloadSize)
 	verifHook("wlock", uplink, cid, payloadSize)
 
-	macPayloadRegistry[uplink][cid] = macPayloadInfo{
-		size:    payloadSize,
-		payload: func() MACCommandPayload { return &ProprietaryMACCommandPayload{} },
+	if payloadSize == 0 {
+		// a command without payload needs no entry
+		delete(macPayloadRegistry[uplink], cid)
+	} else {
+		macPayloadRegistry[uplink][cid] = macPayloadInfo{
+			size:    payloadSize,
+			payload: func() MACCommandPayload { return &ProprietaryMACCommandPayload{} },
+		}
 	}
 	verifHook("write", uplink, cid, payloadSize)
 
